@@ -44,6 +44,7 @@ package list
 //@   ensures [new_owner_member] full(c) && err == nil ==> permOf(stOf(c), c.keyStore.PubKeyFromProto(ch.NewOwnerIdentity)) != 0 && permOf(stOf(c), c.keyStore.PubKeyFromProto(ch.NewOwnerIdentity)) != 1
 //@   ensures [new_owner_active] full(c) && err == nil ==> stOf(c).accountStates[mapKeyFromPubKey(c.keyStore.PubKeyFromProto(ch.NewOwnerIdentity))].Status == 2
 //@   ensures [old_owner_demoted_to_member] full(c) && err == nil ==> ch.OldOwnerPermissions != 1 && ch.OldOwnerPermissions != 0
+//@   ensures [new_owner_not_guest] full(c) && err == nil ==> permOf(stOf(c), c.keyStore.PubKeyFromProto(ch.NewOwnerIdentity)) != 5
 
 //@ func (*contentValidator).ValidateInvite
 //@   modifies nothing
